@@ -546,10 +546,14 @@ func (db *Database) performFuzzySearch(query string, options SearchOptions) []Se
 	// Perform fuzzy search
 	matches := fuzzy.Find(query, targets)
 
+	currentPlatform := getCurrentPlatform()
 	var results []SearchResult
-	for i, match := range matches {
-		if i >= options.Limit*2 { // Get more for better selection
+	for _, match := range matches {
+		if len(results) >= options.Limit*2 { // Get more for better selection
 			break
+		}
+		if !isEligible(&db.Commands[match.Index], currentPlatform, options) {
+			continue
 		}
 
 		// Apply fuzzy threshold
